@@ -356,6 +356,8 @@ def run(ck, m):
     import rules.c02 as c02
     sc2 = Scoped(ck, "R6", lambda c: c.endswith("update_buffer"), rids={"R3"})
     c02.run(sc2, m)
+    #   C02.R4: the resize is skipped only when the frame held has the target size (else the render has not the advertised dimensions).
+    c02.rule_resize_guard(ck, m, "R6")
     ck.expect(sc3.kept >= 10 and sc4.kept >= 3 and sc2.kept >= 8, f"expected sibling obligations (C03.R3/R6: {sc3.kept}, C04.R3: {sc4.kept}, C02.R3: {sc2.kept})")
 
 
